@@ -7,7 +7,7 @@ CONSTANTS
   KCodes = {0, 1030000, 3000100, 1010303, 15150101, 15151515, 15000015}
   WIds = {2, 3, 4}
   LMode = "mixed"
-  ECodes = {0, 1, 1500}
+  ECodes = {0, 1500}
   TCodes = {11,12,31}
   QuadIds = {2}
   ClampE = 15
